@@ -104,6 +104,10 @@ add("C33", EX, "Every mask (and nomask) of every small array x every chunking x 
     "bounded exhaustive enumeration (all masks x all chunkings x operation list) against a numpy.ma reference")
 add("C34", EX, "A grid of arguments for each creation routine (arange incl. fractional/negative steps, linspace, eye, diag, diagonal, indices, meshgrid, fromfunction, tri, ones/zeros/full/empty and *_like) x every chunks argument, compared with the NumPy routine for values (ulp-level tolerance only for float ranges), dtype, shape, chunks and per-block shapes.", "5/C34", ARR_NOTE,
     "bounded exhaustive enumeration of argument grids x all chunk specifications against NumPy")
+add("C22", EX, "Every chunking (including zero-length chunks) of all small 1-d, 2-d and 3-d shapes x every axis selection x keepdims x split_every x every reduction, scan, topk and quantile op, on distinct-int, tie and all-NaN/inf-placement data, compared with NumPy (exact except mean/var/std/moment/nanquantile, rtol 1e-9*n).", "5/C22", ARR_NOTE,
+    "small-scope exhaustive enumeration of the real dask.array reductions against NumPy")
+add("C32", EX, "Every 1-d array over 4 levels x every chunking x every sorted q sub-vector x method on da.percentile, checked for exactly the statement (bounds, monotonicity, end-points); da.nanpercentile on every NaN placement of small 1-d and 2-d arrays x every chunking x axis compared with np.nanpercentile.", "5/C32", ARR_NOTE,
+    "small-scope exhaustive enumeration; statement-only oracle for the approximate part, NumPy reference for the nan part")
 
 
 def build():
